@@ -6,6 +6,7 @@ import Model.C15.Text
 import Model.C15.Eval
 import Model.C15.Bounds
 import Model.C15.Satisfy
+import Model.C15.Decode
 import Generated.Miniscript
 open Btc Btc.Miniscript Btc.Miniscript.Wire
 
@@ -39,6 +40,14 @@ def handle : List String → String
   | "bounds" :: ctx :: toks => withMs ctx toks fun c n =>
     let b (x : Bool) := if x then "True" else "False"
     s!"ok ops={renderOB (maxOps c n)} stack={renderOI (maxStackItems c n)} exec={renderOI (maxExecStackItems c n)} wit={renderOB (maxWitnessSize c n)} limits={b (withinLimits c n)} sane={b (isSane c n)} dup={b (hasDup (keysOf n))}"
+  | ["decode", ctx, tbl, hex] =>
+    -- tbl: `hash160:key,…|-` (what `from_script` is handed to read a pk_h back)
+    match ctxOf? ctx, readTable tbl, fromHex? hex with
+    | some c, some t, some b =>
+      match Decode.fromScript c (fun h => (t.find? (·.1 == h)).map (·.2)) b with
+      | some n => "ok " ++ " ".intercalate (render n)
+      | none => "err value"
+    | _, _, _ => "bad-op"
   | "sat" :: ctx :: sigs :: pre :: lt :: sq :: ver :: toks =>
     -- sigs `key:sig,…|-`; pre `kind:digest:preimage,…|-`; then nLockTime, nSequence, version
     let pres : Option (List (HashKind × Bytes × Bytes)) :=
